@@ -300,6 +300,35 @@ def wt : Nat → Schemas → Ty → GoVal → Bool
     | .alias t' => wt fuel ss t' v
     | .unsup _ => false
 
+/-- driver aid: the reason of the first unsupported position a value reaches (`wt` is false there) -/
+def whyFields (f : Ty → GoVal → Option String) :
+    List Field → List (String × Bool × GoVal) → Option String
+  | fd :: fds, (_, _, x) :: xs => (f fd.ty x).orElse fun _ => whyFields f fds xs
+  | _, _ => none
+
+def whyBranches (f : Ty → GoVal → Option String) :
+    List Field → List (String × GoVal) → Option String
+  | fd :: fds, (_, x) :: xs => (f fd.ty x).orElse fun _ => whyBranches f fds xs
+  | _, _ => none
+
+def unptr : GoVal → GoVal
+  | .ptr v => v
+  | v => v
+
+def whyUnsup : Nat → Schemas → Ty → GoVal → Option String
+  | 0, _, _, _ => none
+  | fuel + 1, ss, t, v =>
+    match classify ss t with
+    | .unsup why => some why
+    | .arr e => (match v with | .slice xs => xs.findSome? (whyUnsup fuel ss e) | _ => none)
+    | .map e => (match v with | .gomap kvs => kvs.findSome? (fun kv => whyUnsup fuel ss e kv.2) | _ => none)
+    | .struct fields _ =>
+      (match unptr v with | .struct fs => whyFields (whyUnsup fuel ss) fields fs | _ => none)
+    | .union fields _ =>
+      (match unptr v with | .union bs => whyBranches (whyUnsup fuel ss) fields bs | _ => none)
+    | .alias t' => whyUnsup fuel ss t' v
+    | _ => none
+
 /-! ### decidable side conditions of the `_partial` theorems -/
 
 mutual
